@@ -28,6 +28,16 @@ CHECKS = {
              "practice programs. Programs the reference cannot decide (dependency cycles) are counted and skipped.",
         note="Trusted: vf/model.py, vf/ref/*; the hook only appends to a list. Time-budget hits (10 s per program) are counted as inconclusive.",
         design="4/C02"),
+    "C03": dict(
+        category="exploration",
+        technique="metamorphic Hypothesis testing (move / permute definitions), corpus text surgery, enumerated definition chains against a big-integer evaluator",
+        text="Generated programs and the 21 practice programs are assembled before and after moving position-independent constant "
+             "definitions to other top-level positions (single moves, permutations, all-to-front, all-to-back); outcome class, base and "
+             "bytes must not change, and for generated programs they must equal the reference assembler's. Definition chains of depth "
+             "300 (additive) and 30 (non-linear) in forward, reverse and shuffled order are used from seven operand/directive positions "
+             "and checked against exact integer arithmetic. Evidence counts how many moves actually crossed a use of the moved symbol.",
+        note="Trusted: the notion of position independence (no '.' and no local label in the expression), vf/model.py for the second oracle.",
+        design="4/C03"),
     "C04": dict(
         category="exploration",
         technique="exhaustive enumeration of branch/SOB distances x operand shapes + Hypothesis relative-operand programs, checked by an independent PDP-11 decoder and an accept/reject table",
